@@ -43,7 +43,7 @@ RULES = {
 
 # registrations that exist only so that a shared clause (ALSO) is reported under the property: the function's instances that
 # are counted without being recorded one by one stay with the properties it was written for
-SHARED_ONLY = {("C25", "r_C24"), ("C25", "r_C23"), ("C29", "r_ledger"), ("C33", "r_ledger"), ("C33", "r_ledger2"), ("C33", "r_C15i"), ("C23", "r_C06bcd"), ("C07", "r_initclass"), ("C10", "r_C17importuri"), ("C27", "r_C15eval")}
+SHARED_ONLY = {("C25", "r_C24"), ("C25", "r_C23"), ("C29", "r_ledger"), ("C33", "r_ledger"), ("C33", "r_ledger2"), ("C33", "r_C15i"), ("C23", "r_C06bcd"), ("C07", "r_initclass"), ("C10", "r_C17importuri"), ("C27", "r_C15eval"), ("C10", "r_C03eval"), ("C06", "r_C19a_C01")}
 # findings of one property that are *also* reported under another (same defect, two properties)
 ALSO = {
     "C21": {"C01": ("C01.a",)},
